@@ -9,8 +9,8 @@ from concurrent.futures import ThreadPoolExecutor
 from pgverif import selftest
 prop = sys.argv[1]
 checks = sys.argv[2:] or [f"C{i:02d}" for i in range(1, 21)]
-patches = sorted(glob.glob(f"{os.environ['EQ_ROOT']}/{prop}/_eq/patch[0-9].diff")) if os.environ.get("EQ_ROOT") else \
-    sorted(glob.glob(f"{VERIF}/equivalents/{prop}-[0-9]/patch.diff"))
+patches = sorted(glob.glob(f"{os.environ['EQ_ROOT']}/{prop}/_eq/patch[0-9]*.diff")) if os.environ.get("EQ_ROOT") else \
+    sorted(glob.glob(f"{VERIF}/equivalents/{prop}-[0-9]*/patch.diff"))
 jobs = [(p, c) for p in patches for c in checks]
 def run(j):
     p, c = j
